@@ -783,13 +783,14 @@ fn main() {
     };
     if threaded {
       let rw = rng.chance(2, 3);
-      let kind = if rw { *rng.pick(&[0u8, 0, 0, 1, 2]) } else { *rng.pick(&[0u8, 0, 0, 1]) };
+      let tiny = cfg!(miri) || args.get("tiny").is_some();
+      let kind = if rw && !tiny { *rng.pick(&[0u8, 0, 0, 1, 2]) } else { *rng.pick(&[0u8, 0, 0, 1]) };
       let scn = Scn {
         exec: exec + args.shard * 1_000_003,
         seed: rng.next(),
         rw,
-        threads: rng.range(2, 8) as usize,
-        ops: *rng.pick(&[10usize, 50, 200, 600]),
+        threads: if tiny { rng.range(2, 3) as usize } else { rng.range(2, 8) as usize },
+        ops: if tiny { *rng.pick(&[4usize, 8, 16]) } else { *rng.pick(&[10usize, 50, 200, 600]) },
         kind,
         profile: chaos::Profile::pick(&mut rng),
         gremlin: rng.chance(1, 3),
@@ -824,7 +825,7 @@ fn main() {
       }
     } else {
       // a batch of stepper programs
-      for _ in 0..200 {
+      for _ in 0..(if cfg!(miri) { 4 } else { 200 }) {
         let rw = rng.chance(2, 3);
         let steps = rng.range(4, 40) as usize;
         let case_seed = rng.next();
